@@ -670,13 +670,19 @@ def must_checks(C, P):
     C.check(len(agg_positions(ce, 'ArxmlParserError', 'ElementChoiceConflict')) == 1 and len(list(ce.calls_to(r'find_common_group$'))) == 1 and len(list(ce.calls_to(r'optional_error$'))) == 1,
             'C08-MUST-checks', 'check_element_conflict|reports-choice-conflict', 'exclusive-choice conflict no longer reported')
     cmu = P.get('ArxmlParser::check_multiplicity')
+    # the list that is scanned may be handed in by the caller (`check_multiplicity(.., &element.content)`): judge the function inside its caller
+    pe_cm = P.view_inlined(P.get('ArxmlParser::parse_element'), r'ArxmlParser[^:]*(::<[^>]*>)?::check_multiplicity$')
     # the duplicate test quantifies over the WHOLE content list of the parent (the parser does not enforce order, so a
     # repeated element need not be adjacent)
     okq = False
-    for pos, t in cmu.iter_calls():
+    n_pe_blocks = len(P.get('ArxmlParser::parse_element').blocks)
+    for cmx in (cmu, pe_cm):
+      for pos, t in cmx.iter_calls():
+        if cmx is pe_cm and pos[0] < n_pe_blocks:
+            continue        # only the inlined copy of check_multiplicity
         if call_matches(t, r'Iterator>?::(any|find|position|filter|all|next|count|fold|try_fold|for_each|find_map|filter_map)$'):
             from flow import deep_sources
-            n_, c_, f_ = deep_sources(cmu, t['args'][0])
+            n_, c_, f_ = deep_sources(cmx, t['args'][0], depth=12)
             if 'ElementRaw.content' in f_ and any(c.endswith('::iter') or 'into_iter' in c for c in c_) and not any(re.search(r'::(last|first|rev|skip|take|nth|get|split_last|windows)$', c) for c in c_):
                 okq = True
     C.check(okq, 'C08-MUST-checks', 'check_multiplicity|quantifies-over-all-content', 'the multiplicity check no longer examines every existing sub element of the parent (a repeated single-occurrence element with something in between is accepted)',
